@@ -9,6 +9,7 @@ mod ctx;
 mod decode;
 mod props;
 mod util;
+mod wacgen;
 mod witgen;
 
 struct StderrLog;
@@ -35,6 +36,8 @@ fn main() {
         "C01" => props::c01::run(&mut ctx),
         "C02" => props::c02::run(&mut ctx),
         "C03" => props::c03::run(&mut ctx),
+        "C12" => props::c12::run(&mut ctx),
+        "C13" => props::c13::run(&mut ctx),
         "C15" => props::c15::run(&mut ctx),
         "debug-c01" => {
             // dumps the output WAT of one C01 case: worker debug-c01 --case K [--seed S]
@@ -76,6 +79,14 @@ fn main() {
                     }
                     Err(e) => println!("---- define_components={define}: error {e}"),
                 }
+            }
+        }
+        "debug-parse" => {
+            // worker debug-parse --replay-input file.json  (json string = source text)
+            let src = ctx.replay_input.as_ref().and_then(|v| v.as_str()).expect("json string").to_string();
+            match wac_parser::Document::parse(&src) {
+                Ok(d) => println!("{}", serde_json::to_string_pretty(&d).unwrap()),
+                Err(e) => println!("ERR {e:?}"),
             }
         }
         "debug-witgen" => {
